@@ -5,7 +5,7 @@
    behaviour that is observed by the correspondence harness and not modelled. *)
 From Verif Require Import Base.Prelude Base.StrUtil Base.Index Base.NdArr Model.MapSpec Model.MapSpecSpec
   Model.MapRun Model.MapDenote Model.SymBody Model.XrLabel Model.XrLabelSpec
-  Proofs.StrFacts Proofs.MapSpecFacts Proofs.XrLabelFacts Proofs.XrLabelCorr Corr.Run_C19.
+  Proofs.StrFacts Proofs.MapSpecFacts Proofs.XrLabelFacts Proofs.XrLabelTotal Proofs.XrLabelCorr Corr.Run_C19.
 
 (* Hypotheses shared by the theorems (all enforced by Pipeline construction):
      NoDup (out_names specs)               every array is the output of at most one function,
@@ -139,6 +139,30 @@ Theorem C19_values_are_denotation : forall q den,
 Proof. exact model_values_denote. Qed.
 Print Assumptions C19_values_are_denotation.
 
+(* termination / totality: when the MapSpecs are listed in a topological order (`topo_specs`: no MapSpec
+   computes an input of an earlier one - a Pipeline is acyclic), the recursion of `_trace_dependencies`
+   never exhausts the fuel S (length specs) of the model, so trace_dependencies returns; and when every
+   array indexed by a MapSpec is an input or an output of the run, the labelling model returns a dataset.
+   With these, the `... = Ok _` hypotheses of the theorems above are consequences, not assumptions. *)
+Theorem C19_trace_fuel_suffices : forall specs,
+  NoDup (out_names specs) -> topo_specs specs = true ->
+  (forall o m, mapping_get specs o = Some m -> exists d, trace_dep (trace_fuel specs) specs o = Ok d)
+  /\ exists tr, trace specs = Ok tr.
+Proof.
+  intros specs Hnd Ht. split.
+  - intros o m M. exact (trace_dep_total specs o m Ht M).
+  - exact (trace_total specs Hnd Ht).
+Qed.
+Print Assumptions C19_trace_fuel_suffices.
+
+Theorem C19_dataset_total : forall specs inputs outputs li,
+  NoDup (out_names specs) -> topo_specs specs = true -> consistent (all_aspecs specs) = true ->
+  (forall ms a, In ms specs -> In a (outs ms) -> no_colon_axes a) ->
+  arrays_known specs inputs outputs ->
+  exists ds, dataset_vars specs inputs outputs li = Ok ds.
+Proof. exact dataset_vars_total. Qed.
+Print Assumptions C19_dataset_total.
+
 (* selecting by coordinate value.  `sel_label` is the specification of label based selection on a
    one-dimensional coordinate (look the value up, slice the variable at the position found); the lookup
    itself is xarray's (observed by the harness on every coordinate value, not modelled).
@@ -257,6 +281,7 @@ Example C19_example_hypotheses :
   /\ (forall m a, In m ex_specs -> In a (outs m) -> no_colon_axes a)
   /\ is_ok (dataset_vars ex_specs inputs outputs true) = true
   /\ computed_by ex_specs (s "r") <> None
+  /\ topo_specs ex_specs = true /\ arrays_known ex_specs inputs outputs
   /\ is_ok (trace_dep (trace_fuel ex_specs) ex_specs (s "r")) = true
   /\ option_map ds_plain (match dataset_vars ex_specs inputs (outputs ++ [s "t"]) true with
                           | Ok ds => Some ds | Err _ => None end) = Some [s "t"].
@@ -271,6 +296,9 @@ Proof.
     repeat (destruct Hm as [<-|Hm]; [cbn in Ha; destruct Ha as [<-|[]]; destruct i as [|[|[|i]]]; cbn; discriminate|]).
     destruct Hm.
   - vm_compute. discriminate.
+  - intros m a Hm Ha. vm_compute in Hm.
+    repeat (destruct Hm as [<-|Hm]; [cbn in Ha; repeat (destruct Ha as [<-|Ha]; [vm_compute; tauto|]); destruct Ha|]).
+    destruct Hm.
 Qed.
 
 Example C19_example_values : (* the witness request is valid: the hypotheses of C19_values_are_denotation hold *)
